@@ -4,6 +4,7 @@ from __future__ import annotations
 import itertools
 import os
 
+from . import common
 from .common import Check, fmt_ints, fmt_matrix, kv
 
 THEOREMS = [
@@ -571,5 +572,17 @@ def check(ck: Check) -> None:
     ]
     ck.notes += ["optimum clause = exhaustive_enumeration over all 12^6 = 2985984 day-wise consistent four-team plans per instance "
                  "(real count_errors + game_plan_length inside one njit loop), in both tiers; see coverage.optimum_clause"]
-    ck.lean(["Props.C08"], THEOREMS)
+    modules, theorems = ["Props.C08"], list(THEOREMS)
+    # tie between source and model: lean/Gen/PlanLength.lean is regenerated from the CURRENT source of game_plan_length and
+    # Props/C08Gen.lean proves it equal to the hand-written model `TtpLength.planLength?` for all inputs
+    try:
+        from .translate import loop2lean
+        ck.gen_begin()   # released at the end of ck.lean
+        loop2lean.emit_plan_length(common.REPO, common.LEAN)
+        modules.append("Props.C08Gen")
+        theorems.append("C08Gen.game_plan_length_eq_model")
+    except Exception as e:  # noqa: BLE001 - source outside the translatable subset: the obligation cannot be regenerated
+        ck.proof_failures.append(f"translator loop2lean: game_plan_length is not translatable, the theorem "
+                                 f"C08Gen.game_plan_length_eq_model could not be re-checked against the source: {e!r}")
+    ck.lean(modules, theorems)
     streams(ck)
